@@ -154,8 +154,8 @@ def grid(tier):
         # callers that keep driving their last argument while idle (the reduced alphabet zeroes idle payloads)
         for t, r in ((False, False), (True, True)):
             small.append({"depth": 2, "width": 1, "rp": 1, "wp": 2, "transparent": t, "read_on_resp": r, "idle_payload": True})
-            small.append({"depth": 2, "width": 2, "gran": 1, "rp": 1, "wp": 1, "transparent": t, "read_on_resp": r,
-                          "idle_payload": True, "wdata": [0, 3]})
+            big.append(({"depth": 2, "width": 2, "gran": 1, "rp": 1, "wp": 1, "transparent": t, "read_on_resp": r,
+                         "idle_payload": True, "wdata": [0, 3]}, {"max_depth": 4}))
         # the other memory primitives behind the bank (response held over several cycles)
         for t, r in flags:
             small.append({"depth": 2, "width": 1, "rp": 1, "wp": 1, "transparent": t, "read_on_resp": r,
